@@ -27,7 +27,7 @@ def run_groups(specs):
 
 
 def budget(tier):
-    return {"quick": 3, "thorough": 40}[tier]
+    return {"quick": 8, "thorough": 40}[tier]
 
 
 def explore(tier, seed, n):
